@@ -213,6 +213,21 @@ class LockMonitor:
         rig.ev("jobs_completed")
         rig.ev("status_" + str(md_items.get("status")))
         self._check_table(rig, state, "after treat_output")
+        # the restart file just written must record exactly the jobs that
+        # are in flight now (they are what a restart re-issues)
+        rec = state.config["current"].get("locked")
+        if rec is not None and not getattr(rig, "no_restart_file", False):
+            rig.reach("restart_locked_record")
+            off = state._offset
+            got = sorted((tuple(int(e) for e in a), tuple(str(x) for x in b))
+                         for a, b in rec)
+            want = sorted((tuple(e + off for e in j["ens"]),
+                           tuple(str(p) for p in j["paths"]))
+                          for j in self.inflight.values())
+            if got != want:
+                rig.violate("restart-file-locked-differs-from-inflight",
+                            f"restart file records in-flight jobs {got}, "
+                            f"actually in flight {want}")
 
 
 # --------------------------------------------------------------------------
